@@ -396,19 +396,9 @@ impl<'a> Tc<'a> {
 
 	/// C09: a blocking op of a retrying acquisition that was not grantable at issue time while
 	/// the caller held another lock of this acquisition
-	fn check_retry_ops(&self, ops: &[RawRec], label: &str) {
-		for o in ops {
-			if o.op == Op::Lock && !o.grantable_at_issue && o.held_other_groups > 0 {
-				self.v(
-					"C09",
-					"wait_while_holding",
-					format!(
-						"{label}: blocking request for lock {} was not grantable while the thread held {} lock(s) outside that lock's owned unit",
-						o.lock, o.held_other_groups
-					),
-				);
-			}
-		}
+	fn check_retry_ops(&self, _ops: &[RawRec], _label: &str) {
+		// decided inside the World at issue time (world.rs raw_op), so that an acquisition
+		// that never returns (self-wait) is judged as well
 	}
 
 	/// the critical section: touch every payload in declared order
